@@ -18,18 +18,28 @@ type builder struct {
 	tracers     []int
 	direct      map[int]bool // registration made after installation: the SDK's own Registration is handed out
 	unregCalled map[int]bool
-	origin      map[int]int // repeated request -> first request of the identity
+	origin      map[int]int  // repeated request -> first request of the identity
+	anyMeter    map[int]bool // key in use (global or not)
+	badInst     map[int]bool // placeholder whose name the SDK rejects (F-C16-2)
+	BadRec      []int        // measurements through such placeholders
+	BadCB       []int        // creation-time callbacks attached to them
 }
 
 func newBuilder() *builder {
 	return &builder{globalMeter: map[int]bool{}, kindOf: map[int]int{}, meterOf: map[int]int{}, obs: map[int][]int{},
-		direct: map[int]bool{}, unregCalled: map[int]bool{}, origin: map[int]int{}}
+		direct: map[int]bool{}, unregCalled: map[int]bool{}, origin: map[int]int{}, anyMeter: map[int]bool{}, badInst: map[int]bool{}}
 }
 
 func (b *builder) add(s Step) bool {
 	id := len(b.steps)
 	switch s.Op {
 	case opMeter:
+		if s.Same > 0 { // the identity of meter key Same-1 again, kept under the fresh key Arg
+			if !b.anyMeter[s.Same-1] || b.anyMeter[s.Arg] {
+				return false
+			}
+		}
+		b.anyMeter[s.Arg] = true
 		if b.installed == 0 {
 			b.globalMeter[s.Arg] = true
 		}
@@ -52,6 +62,17 @@ func (b *builder) add(s Step) bool {
 		if !isObservable(s.Kind) {
 			s.CB = false
 		}
+		if s.Same > 0 {
+			s.Bad = 0
+			if b.badInst[s.Same] && b.installed == 0 {
+				b.badInst[id] = true // the same (never connected) placeholder again
+			}
+		} else if s.Bad >= 1 && s.Bad <= 4 && b.installed == 0 {
+			b.badInst[id] = true
+		}
+		if b.badInst[id] && s.CB {
+			b.BadCB = append(b.BadCB, id)
+		}
 		b.kindOf[id], b.meterOf[id] = s.Kind, s.Arg
 		if isObservable(s.Kind) {
 			b.obs[s.Arg] = append(b.obs[s.Arg], id)
@@ -63,13 +84,16 @@ func (b *builder) add(s Step) bool {
 		if !ok || isObservable(k) {
 			return false
 		}
+		if b.badInst[s.Arg] {
+			b.BadRec = append(b.BadRec, id)
+		}
 	case opRegister:
 		if !b.globalMeter[s.Arg] || len(s.Obs) == 0 {
 			return false
 		}
 		for _, i := range s.Obs {
 			k, ok := b.kindOf[i]
-			if !ok || !isObservable(k) || b.meterOf[i] != s.Arg {
+			if !ok || !isObservable(k) || b.meterOf[i] != s.Arg || b.badInst[i] {
 				return false
 			}
 		}
@@ -93,6 +117,15 @@ func (b *builder) add(s Step) bool {
 		}
 		b.installed++
 	case opTracer:
+		if s.Same > 0 {
+			ok := false
+			for _, t := range b.tracers {
+				ok = ok || t == s.Same
+			}
+			if !ok {
+				return false
+			}
+		}
 		b.tracers = append(b.tracers, id)
 	case opSpan:
 		ok := false
@@ -186,6 +219,27 @@ func systematic(kind int) [][]Step {
 	for _, p := range permutations([]int{tC, tR, tU, tI}) {
 		emit(p)
 	}
+	// names the SDK rejects (F-C16-2) and the longest valid name, before and after installation; options,
+	// the otel.Meter entry point, a non-comparable provider value, a refused self-installation first
+	for bad := 1; bad <= 5; bad++ {
+		for _, pre := range []bool{true, false} {
+			b := newBuilder()
+			b.add(Step{Op: opSelf, Arg: 1})
+			b.add(Step{Op: opMeter, Arg: 0, Opt: bad%2 == 0, Via: bad % 2})
+			if !pre {
+				b.add(Step{Op: opInstall, Prov: bad % 2})
+			}
+			b.add(Step{Op: opInst, Arg: 0, Kind: kind, Bad: bad, CB: true})
+			if !isObservable(kind) {
+				b.add(Step{Op: opRecord, Arg: len(b.steps) - 1})
+			}
+			if pre {
+				b.add(Step{Op: opInstall, Prov: bad % 2})
+			}
+			b.add(Step{Op: opInstall, Prov: 1})
+			out = append(out, b.finish())
+		}
+	}
 	// the same identity requested 2-3 times before (and after) installation: every handle must work
 	dup := func(seq []Step) {
 		b := newBuilder()
@@ -246,6 +300,39 @@ func seqCorpus() [][]Step {
 		}
 		out = append(out, b.finish())
 	}
+	// tracer identities, options, entry points, self-installation, provider values, error handler
+	for v := 0; v < 8; v++ {
+		b := newBuilder()
+		b.add(Step{Op: opSelf, Arg: 0})
+		b.add(Step{Op: opSelf, Arg: 2})
+		b.add(Step{Op: opTracer, Opt: v&1 == 1, Via: v >> 1 & 1}) // 2
+		b.add(Step{Op: opTracer, Same: 2})                        // 3: the same tracer again
+		b.add(Step{Op: opTracer, Opt: v&1 == 0})                  // 4
+		b.add(Step{Op: opSpan, Arg: 2})
+		if v&4 != 0 {
+			b.add(Step{Op: opErrH})
+		}
+		b.add(Step{Op: opInstallT, Prov: v & 1})
+		b.add(Step{Op: opSpan, Arg: 3})
+		b.add(Step{Op: opTracer, Same: 2, Via: 1}) // after installation
+		b.add(Step{Op: opInstallT, Prov: 1})
+		b.add(Step{Op: opSelf, Arg: 0})
+		b.add(Step{Op: opProp})
+		out = append(out, b.finish())
+	}
+	// a meter identity requested twice: instruments through both handles
+	for v := 0; v < 4; v++ {
+		b := newBuilder()
+		b.add(Step{Op: opMeter, Arg: 0, Opt: v&1 == 1, Via: v >> 1})
+		b.add(Step{Op: opMeter, Arg: 5, Same: 1}) // meter 0 again, kept as key 5
+		b.add(Step{Op: opInst, Arg: 0, Kind: 2 + v})
+		b.add(Step{Op: opInst, Arg: 5, Kind: 4 + v})
+		b.add(Step{Op: opInst, Arg: 5, Kind: 8 + v, CB: true})
+		b.add(Step{Op: opRegister, Arg: 5, Obs: []int{4}})
+		b.add(Step{Op: opInstall, Prov: v & 1})
+		b.add(Step{Op: opMeter, Arg: 6, Same: 1, Via: 1})
+		out = append(out, b.finish())
+	}
 	// two meters, registrations on both, one unregistered before and one after installation
 	b := newBuilder()
 	b.add(Step{Op: opMeter, Arg: 0})
@@ -290,9 +377,17 @@ func randomProgram(r *vgen.Rand) []Step {
 		}
 		switch r.Intn(20) {
 		case 0, 1:
-			b.add(Step{Op: opMeter, Arg: r.Intn(3)})
+			if r.Chance(1, 4) {
+				b.add(Step{Op: opMeter, Arg: 3 + r.Intn(4), Same: 1 + r.Intn(3), Via: r.Intn(2)})
+			} else {
+				b.add(Step{Op: opMeter, Arg: r.Intn(3), Opt: r.Bool(), Via: r.Intn(2)})
+			}
 		case 2, 3, 4, 5:
-			b.add(Step{Op: opInst, Arg: r.Intn(3), Kind: r.Intn(nKinds)})
+			bad := 0
+			if r.Chance(1, 6) {
+				bad = 1 + r.Intn(5)
+			}
+			b.add(Step{Op: opInst, Arg: r.Intn(3), Kind: r.Intn(nKinds), Bad: bad, CB: bad > 0})
 		case 6:
 			if all := append(append([]int(nil), b.syncs...), flatten(b.obs)...); len(all) > 0 && r.Bool() {
 				b.add(Step{Op: opInst, Same: vgen.Pick(r, all), CB: r.Bool()}) // an existing identity again
@@ -317,18 +412,29 @@ func randomProgram(r *vgen.Rand) []Step {
 				b.add(Step{Op: opUnregister, Arg: vgen.Pick(r, b.regs)})
 			}
 		case 15:
-			if r.Chance(1, 3) {
-				b.add(Step{Op: opInstall})
+			switch r.Intn(4) {
+			case 0:
+				b.add(Step{Op: opInstall, Prov: r.Intn(2)})
+			case 1:
+				b.add(Step{Op: opSelf, Arg: r.Intn(3)})
+			case 2:
+				if r.Chance(1, 3) {
+					b.add(Step{Op: opErrH})
+				}
 			}
 		case 16:
-			b.add(Step{Op: opTracer})
+			if len(b.tracers) > 0 && r.Chance(1, 3) {
+				b.add(Step{Op: opTracer, Same: vgen.Pick(r, b.tracers), Via: r.Intn(2)})
+			} else {
+				b.add(Step{Op: opTracer, Opt: r.Bool(), Via: r.Intn(2)})
+			}
 		case 17:
 			if len(b.tracers) > 0 {
 				b.add(Step{Op: opSpan, Arg: vgen.Pick(r, b.tracers)})
 			}
 		case 18:
 			if r.Chance(1, 2) {
-				b.add(Step{Op: opInstallT})
+				b.add(Step{Op: opInstallT, Prov: r.Intn(2)})
 			}
 		case 19:
 			if r.Chance(1, 3) {
@@ -342,7 +448,7 @@ func randomProgram(r *vgen.Rand) []Step {
 func randomStorm(r *vgen.Rand) *Storm {
 	s := &Storm{Seed: r.U64(), Meters: r.Range(1, 3), PreInsts: r.Intn(5), PreRegs: r.Intn(12), Creators: r.Intn(4),
 		Recorders: r.Intn(4), Regs: r.Intn(4), Unregs: r.Intn(5), Tracers: r.Intn(3), Iter: r.Range(5, 30),
-		Installers: 1, Delay: vgen.Pick(r, []int{0, 20, 100, 300, 1000, 3000}), WatchdogS: 20}
+		Installers: 1, Delay: vgen.Pick(r, []int{0, 20, 100, 300, 1000, 3000}), WatchdogS: 60}
 	if s.PreRegs > 0 {
 		s.PreUnreg = r.Intn(3)
 	}
@@ -368,4 +474,26 @@ func flatten(m map[int][]int) []int {
 		out = append(out, m[k]...)
 	}
 	return out
+}
+
+// badLists: measurements through, and creation-time callbacks attached to, placeholders whose name the
+// SDK rejects (requested before installation with Bad 1-4, or a repeated request of such an identity).
+func badLists(steps []Step) (rec, cb []int) {
+	installed := false
+	bad := map[int]bool{}
+	for j, s := range steps {
+		switch s.Op {
+		case opInstall:
+			installed = true
+		case opInst:
+			if !installed && ((s.Same == 0 && s.Bad >= 1 && s.Bad <= 4) || (s.Same > 0 && bad[s.Same])) {
+				bad[j] = true // (a creation-time callback on it is registered by the SDK constructor all the same)
+			}
+		case opRecord:
+			if bad[s.Arg] {
+				rec = append(rec, j)
+			}
+		}
+	}
+	return
 }
